@@ -203,13 +203,16 @@ def gen_graph(rng):
 # ------------------------------------------------------------------ workspace cases
 OPS = ["fix", "fixclean", "list", "listclean", "cli-fix", "cli-fixclean", "cli-list", "cli-listclean"]
 OPW = [10, 8, 1, 2, 2, 2, 1, 1]
+# the workspace designated by a path relative to the current directory (dedicated cases: see oracle)
+OPS_REL = ["fix-rel", "fixclean-rel", "cli-fix-rel", "cli-fixclean-rel"]
 
 
 def gen_case(rng, name, real):
     nj = rng.choice([1, 2, 2, 3, 3, 4])
     jobs, seen = [], set()
     while len(jobs) < nj:
-        if jobs and rng.random() < 0.3:
+        is_variant = bool(jobs) and rng.random() < 0.3
+        if is_variant:
             spec = variant(rng, rng.choice(jobs)["spec"])
         else:
             spec = gen_task(rng, rng.choice([0.2, 0.6, 0.9]))
@@ -219,7 +222,8 @@ def gen_case(rng, name, real):
                 nj -= 1
             continue
         seen.add(key)
-        jobs.append(dict(spec=spec, mode="gen", done=rng.random() < 0.85))
+        # (a second directory of the same configuration is often the one that never finished, or the only finished one)
+        jobs.append(dict(spec=spec, mode="gen", done=rng.random() < (0.6 if is_variant else 0.85)))
     if real:
         jobs[0]["mode"] = "run"
         jobs[0]["done"] = True
@@ -255,6 +259,8 @@ def gen_case(rng, name, real):
     ops = [rng.choices(OPS, OPW)[0] for _ in range(rng.choice([1, 2, 2, 3, 3, 4]))]
     if rng.random() < 0.5:
         ops.append(ops[-1])          # repeated call
+    if rng.random() < 0.08:
+        ops = [rng.choice(OPS_REL)] * rng.choice([1, 2])
     return dict(name=name, jobs=jobs, manual=manual, ops=ops, real_resubmit=True)
 
 
@@ -322,13 +328,32 @@ def well_shaped(tm, exp):
     return True
 
 
+class Rekey:
+    """cases that only differ from the others by the way the workspace is designated: whatever goes wrong there is
+    reported under one key"""
+
+    def __init__(self, c, key):
+        self.c, self.key = c, key
+
+    def violation(self, key, what, data):
+        self.c.violation(self.key, f"[workspace designated by a path relative to the current directory] {what} (clause {key})", data)
+
+
+def finished(k, e, n):
+    """the directory holds a result: <name>.done under the name of the task it was stored under (or of its replacement)"""
+    return k[0].rsplit(".", 1)[-1] in e["done"] or n[0].rsplit(".", 1)[-1] in e["done"]
+
+
 def oracle(c, case, ans):
     """The property restated over the implementation's observables (no model involved)."""
+    if any(op.endswith("-rel") for op in case["ops"]):
+        c = Rekey(c, "C20:relative-workspace-path")
     exp, moved = expected_recomp(case, ans)
     state = ans["before"]
     info = dict(case=case)
     prev = None
     any_fix = False
+    index = ans.get("index_before", [])
     # (0) what the repair command recomputes from a stored params.json (its loader, the classes as they are now) is
     #     the identity of the same graph written with the replacement classes: the directory is linked / moved
     #     where a re-submit looks for it
@@ -403,6 +428,35 @@ def oracle(c, case, ans):
                     if r1 is None or r1[0] != r0[0] or r1[1]["mark"] != r0[1]["mark"]:
                         c.violation("C20:occupied-path-altered", "a new path occupied by different data was altered",
                                     dict(where, dir=k, new=n))
+            # (7) two directories stored under two former identifiers of ONE configuration (class renamed twice, ...): only
+            #     one of them can sit under the new identifier; when one of them holds a result, a re-submit must find a result
+            claim = {}
+            for k, e in tb.items():
+                if "link" not in e and e["params"] and exp.get(e["mark"]) is not None and exp[e["mark"]][1] != k[1]:
+                    claim.setdefault(exp[e["mark"]], []).append((k, e))
+            for n, cl in claim.items():
+                if len(cl) < 2 or n in tb or not any(finished(k, e, n) for k, e in cl):
+                    continue
+                r1 = resolve(ta, n)
+                if r1 is None or not any(r1[1]["mark"] == e["mark"] and finished(k, e, n) for k, e in cl):
+                    c.violation("C20:resubmit-misses-result:two-former-identifiers",
+                                "two directories were stored under two former identifiers of the same configuration and one of them "
+                                "holds a finished result; after the repair the new identifier leads to the one WITHOUT a result "
+                                "(the first the file system listed): a re-submit runs the job again although a result exists",
+                                dict(where, new=n, claimants=[dict(dir=k, mark=e["mark"], done=e["done"]) for k, e in cl],
+                                     leads_to=None if r1 is None else r1[1]["mark"]))
+        # (8) the experiment indices (xp/<name>/jobs/<type>/<id>, links made by the scheduler) still lead to the data they led to
+        idx_b = index
+        index = op.get("index", index)
+        for ent in idx_b:
+            if ent["mark"] is None:
+                continue
+            if not any(e2["xp"] == ent["xp"] and e2["folder"] == ent["folder"] and e2["mark"] == ent["mark"] for e2 in index):
+                c.violation("C20:experiment-index-broken:" + ("cleanup" if op["cleanup"] else "link"),
+                            f"the job {ent['mark']} belongs to experiment {ent['xp']} (xp/{ent['xp']}/{ent['folder']}/{'/'.join(ent['k'])} "
+                            "led to its directory); after the repair no entry of that experiment leads to it: the link dangles since the "
+                            "directory was moved, `orphans` lists the moved directory and `orphans --clean` deletes the data",
+                            dict(where, entry=ent, index_after=index, orphans=ans.get("orphans")))
         # (5) a second identical repair is a no-op
         if prev is not None and op["fix"] and (prev["fix"], prev["cleanup"]) == (op["fix"], op["cleanup"]):
             if not op["cleanup"] or well_shaped(tree_map(prev["_before"]), exp):
@@ -412,6 +466,17 @@ def oracle(c, case, ans):
         op["_before"] = state
         prev = op
         state = op["after"]
+    # (8') ... and `orphans` (listing only) does not report a directory that an experiment referred to before the repair
+    listed = set((ans.get("orphans") or {}).get("listed", []))
+    if listed and ans["ops"]:
+        last = {e["mark"]: e for e in ans["ops"][-1]["after"] if "link" not in e}
+        for ent in ans.get("index_before", []):
+            e = last.get(ent["mark"])
+            if ent["mark"] is not None and e is not None and "/".join(e["k"]) in listed:
+                c.violation("C20:experiment-index-broken:" + ("cleanup" if any(op["cleanup"] and op["fix"] for op in ans["ops"]) else "link"),
+                            f"the job {ent['mark']} belonged to experiment {ent['xp']} before the repair; afterwards `orphans` reports its "
+                            "directory as belonging to no experiment (`orphans --clean` would delete it)",
+                            dict(info, entry=ent, orphans=ans["orphans"], final=ans["ops"][-1]["after"]))
     # (4) re-submitting the replacement finds the existing result
     for ix, (j, o, r) in enumerate(zip(case["jobs"], case["old"], ans["resubmit"])):
         mk = f"{case['name']}:job{ix}"
@@ -493,6 +558,14 @@ def load_items(case, ans, classes_now):
                         real=(rc["type"], rc["id"]) if rc["state"] == "ok" else None, repl=n,
                         case=dict(jobs=[case["jobs"][ix]], manual=[], ops=case["ops"][:1])))
     return out
+
+
+def g_deprecation(before, now):
+    """the class table before @deprecate, the deprecations in the order python performs them (class definition order:
+    a class is deprecated when its definition is executed), and the class table afterwards"""
+    ix = {cl["py"]: i for i, cl in enumerate(now)}
+    steps = [(ix[cl["py"]], ix[cl["parent"]]) for cl in now if cl["deprecated"]]
+    return (f"({identgen.g_classes(before)}, {glist(f'({gnat(a)}, {gnat(b)})' for a, b in steps)}, {identgen.g_classes(now)})")
 
 
 def g_tid_id(p):
@@ -831,6 +904,13 @@ def run(c: Check):
     lheader = ("From Coq Require Import ZArith NArith List Bool.\nFrom XV Require Import core.Value model.Hash model.Serial "
                "model.Deprecate corr.DeprecateCorr.\nImport ListNotations.\n")
     lbad = c.corr_shards("load", lheader, loads, g_load, "check_load", shard=120 if c.quick else 400) if loads else []
+    # what @deprecate does to the class table: the model's `deprecate` applied to the real table before must give the real table after
+    classes_before = run_impl("drive_c20.py", dict(phase="C"), extra_env={"VPK_C20_DEPRECATED": "0"}) if cases else []
+    if cases:
+        if any(cl["deprecated"] for cl in classes_before) or [cl["py"] for cl in classes_before] != [cl["py"] for cl in classes_now]:
+            raise InternalError("phase C: class tables before / after @deprecate are not aligned")
+        c.count("deprecated-classes", sum(1 for cl in classes_now if cl["deprecated"]))
+        c.corr_shards("deprecate", lheader, [(classes_before, classes_now)], lambda x: g_deprecation(*x), "check_deprecate", shard=1)
     c.extra["disagreeing_loads"] = [dict(loads[i]["case"], real=loads[i]["real"], replacement=loads[i]["repl"]) for i in lbad[:3]]
     if lbad:
         # diagnostic only: do the disagreeing directories behave like a loader that restores only a truthy meta flag?
@@ -861,6 +941,19 @@ def run(c: Check):
                                                    extra_env={"VPK_C20_DEPRECATED": "0"}), parts))
         dep = [x for p in dep for x in p]
         nodep = [x for p in nodep for x in p]
+        # directed probe (reported under its own key only): a deprecated-class instance equal to a parameter's DEFAULT
+        # (a configuration-valued default) - Config.__eq__ compares the python classes, so the value is not recognised
+        # as the default and is hashed, while the replacement's instance is skipped
+        probes = [{"c": "DefHolder", "a": {"n": n, "leaf": {"c": cl, "a": {"v": 1}}}} for n in (0, 1) for cl in ("OldLeaf", "OlderLeaf")]
+        for g, a in zip(probes, run_impl("drive_c20.py", dict(phase="I", graphs=probes), timeout=600,
+                                         extra_env={"VPK_C20_DEPRECATED": "1"})):
+            c.evaluations += 1
+            c.count("graph:probe-config-valued-default")
+            if a["old"] != a["new"] or a["old_type"] != a["new_type"]:
+                c.violation("C20:identifier-differs:config-valued-default",
+                            "a deprecated-class instance equal to the (configuration-valued) default of a parameter is hashed, the "
+                            "same value written with the replacement class is skipped as the default: the identifiers differ after "
+                            "deprecation", dict(graph=g, deprecated=a))
         for g, a, b in zip(graphs, dep, nodep):
             c.evaluations += 1
             cl = classes_of(g)
